@@ -213,11 +213,11 @@ Definition Gm : env := [Frame [] [(Sym 3, mkcell 1 (VCore CORE_LAMBDA)); (Sym 10
 Definition or2 : macro := mkmacro Gm 2
   (TLst [TLst [TId 3; TLst [TId 20]; TLst [TId 10; TId 20; TId 20; TVar 1]]; TVar 0]).
 Definition prog : sexp := Lst [Sym 3; Lst [Sym 40]; Lst [Sym 31; Sym 40; Lit 5]].
-Example ex_guard_ok : exists r, resolve [40; 10]%N [or2] 20 (1000, 1)%N [] Gm prog = OK r.
+Example ex_guard_ok : exists r, resolve [40; 10]%N [or2] 20 ((1000, 1)%N, []) [] Gm prog = OK r.
 Proof. eexists. vm_compute. reflexivity. Qed.
 Example ex_invariant :
-  resolve [] [or2] 20 (1000, 1)%N [] Gm (swapU 40 10 prog) = resolve [40; 10]%N [or2] 20 (1000, 1)%N [] Gm prog.
+  resolve [] [or2] 20 ((1000, 1)%N, []) [] Gm (swapU 40 10 prog) = resolve [40; 10]%N [or2] 20 ((1000, 1)%N, []) [] Gm prog.
 Proof. vm_compute. reflexivity. Qed.
 Example ex_guard_fires :   (* the user text itself uses `if` as a keyword: renaming x to if is not allowed *)
-  resolve [40; 10]%N [or2] 20 (1000, 1)%N [] Gm (Lst [Sym 3; Lst [Sym 40]; Lst [Sym 10; Sym 40; Lit 1; Lit 2]]) = Err Escaped.
+  resolve [40; 10]%N [or2] 20 ((1000, 1)%N, []) [] Gm (Lst [Sym 3; Lst [Sym 40]; Lst [Sym 10; Sym 40; Lit 1; Lit 2]]) = Err Escaped.
 Proof. vm_compute. reflexivity. Qed.
